@@ -2,6 +2,6 @@ SPECIFICATION Spec
 CONSTANTS
   Values = {1, 2, 3, 4}
   Gaps = {1, 2}
-  MaxLen = 4
+  MaxLen = 5
 INVARIANTS TypeOK RunIsRef PeakToTrough Recovery OnePerPeak NoneIffMonotone MaxIsLargest ClassicMDD
 CHECK_DEADLOCK FALSE
